@@ -227,6 +227,16 @@ def stage_proof(pid, timeout=1500):
     return res
 
 
+def stage_coqchk(pid, timeout=1800):
+    """thorough tier: the independent checker re-checks Props/<pid>.vo and everything it depends on;
+    its context summary must list no axiom, no type-in-type, no unsafe fixpoint, no assumed positivity."""
+    rc, out = run("timeout %d coqchk -o -silent -Q theories PegV PegV.Props.%s" % (timeout, pid), cwd=COQ, timeout=timeout + 60)
+    summary = out[out.find("CONTEXT SUMMARY"):] if "CONTEXT SUMMARY" in out else out[-2000:]
+    want = ["* Axioms: <none>", "relying on type-in-type: <none>", "relying on unsafe (co)fixpoints: <none>", "whose positivity is assumed: <none>"]
+    ok = rc == 0 and all(w in summary for w in want)
+    return {"ok": ok, "summary": summary[-1500:]}
+
+
 # --------------------------------------------------------------------------
 # stage: implementation build (harness crates against /repo, hooks on)
 
